@@ -34,7 +34,10 @@ def parseHeap (str : String) : Heap :=
       pure (id, { self := ⟨a, id.idx⟩, refs := parseRefs refs })
     | _ => none)
 
-/-- entries of the write set / the cache: `id:addr:refs` or `id:nil` -/
+/-- entries of the write set / the cache: `id:addr:refs` or `id:nil`; `id:shadowed` is a non-nil
+    cache entry whose identifier is also a key of the write set - its content is not dumped (the
+    object may be dead) and is never looked at: slab iteration skips the key in both loops, every
+    read takes the pending entry.  It is given the empty content. -/
 def parseOpt (str : String) : AList SlabID (Option HSlab) :=
   if str.isEmpty then [] else
   (str.splitOn ";").filterMap (fun ent =>
@@ -42,6 +45,9 @@ def parseOpt (str : String) : AList SlabID (Option HSlab) :=
     | [ids, "nil"] => do
       let id ← parseID ids
       pure (id, none)
+    | [ids, "shadowed"] => do
+      let id ← parseID ids
+      pure (id, some { self := id, refs := [] })
     | [ids, addr, refs] => do
       let id ← parseID ids
       let a ← addr.toNat?
